@@ -32,7 +32,7 @@ class Conserve:
         # sinks: what was received (callback channel, flattened at callback time is not needed:
         # a received batch is not modified afterwards)
         while self.n_recv_log < len(log.receives):
-            t, did, part, ct, ser, lvs = log.receives[self.n_recv_log]
+            t, did, part, ct, ser, lvs, val = log.receives[self.n_recv_log]
             self.n_recv_log += 1
             if m.kinds[did] == 'sink':
                 lv = leaves_of(part)
